@@ -796,6 +796,58 @@ fn c16_side_by_side(run: &Run, alphabet: &[Op], depth: usize, fl: Fl, reserved: 
   }
 }
 
+/// resizing (unsync only) is an arena operation like any other: the caller's reserved bytes, the
+/// identification bytes and the descriptive accessors survive it on every backend
+fn c16_truncate_keeps_prefix(run: &Run) {
+  for (backend, unify) in [(Backend::Vec, false), (Backend::Vec, true), (Backend::Anon, false), (Backend::Anon, true), (Backend::File, true)] {
+    for reserved in [5u32, 8, 40] {
+      let mut cfg = Cfg::new(Fl::Optimistic, backend, unify, 300 + reserved);
+      cfg.reserved = reserved;
+      cfg.magic = 7;
+      cfg.min_seg = 13;
+      let path = if backend == Backend::File { Some(fresh_path("c16t")) } else { None };
+      let case = json!({"engine": "c16", "tag": "C16", "flavour": "unsync", "cfg": cfg, "part": "truncate"});
+      crate::crashguard::set_case(crate::crashguard::head_of(&case));
+      let mut a: unsync::Arena = build(&cfg, path.as_ref()).expect("arena");
+      for (i, b) in unsafe { a.reserved_slice_mut() }.iter_mut().enumerate() {
+        *b = 0xC0 | (i as u8 & 0x3f);
+      }
+      let want: Vec<u8> = a.reserved_slice().to_vec();
+      let mut h = a.alloc_bytes(30).unwrap();
+      unsafe { h.detach() };
+      drop(h);
+      let id: Vec<u8> = if cfg.unified() { a.memory()[reserved as usize..reserved as usize + 8].to_vec() } else { vec![] };
+      let acc = |a: &unsync::Arena| (a.data_offset(), a.reserved_bytes(), a.magic_version(), a.version(), a.minimum_segment_size(), a.unify(), a.read_only(), a.allocated(), a.discarded());
+      let before = acc(&a);
+      for n in [500usize, 200, 201, 1000, 64 + reserved as usize] {
+        let r = a.truncate(n);
+        run.eval(1);
+        let mut bad = vec![];
+        if a.reserved_slice() != &want[..] {
+          bad.push(format!("reserved_slice() = {:x?}, the caller had stored {:x?}", a.reserved_slice(), want));
+        }
+        if cfg.unified() && a.memory()[reserved as usize..reserved as usize + 8] != id[..] {
+          bad.push("the identification bytes changed".to_string());
+        }
+        if acc(&a) != before {
+          bad.push(format!("accessors (data_offset, reserved, magic, version, min segment, unify, read_only, allocated, discarded) {:?} -> {:?}", before, acc(&a)));
+        }
+        if r.is_err() {
+          bad.push(format!("truncate({}) failed: {:?}", n, r.err()));
+        }
+        for m in bad {
+          viol(run, "C16", "after-truncate", format!("[unsync {:?} unify={} reserved {}] after truncate({}): {}", backend, unify, reserved, n, m), case.clone());
+        }
+      }
+      drop(a);
+      if let Some(p) = path {
+        let _ = std::fs::remove_file(p);
+      }
+    }
+  }
+  crate::crashguard::clear_case();
+}
+
 pub fn check_c16(tier: Tier) -> i32 {
   let run = Run::new("C16", tier, "model_checking");
   let thorough = tier == Tier::Thorough;
@@ -833,6 +885,7 @@ pub fn check_c16(tier: Tier) -> i32 {
       c16_construct_at::<unsync::Arena>(&run, r, cap, false, Backend::File, 8192);
     }
   });
+  c16_truncate_keeps_prefix(&run);
   // (b) histories with the layout oracle (reserved immutable, id bytes, remaining, first offset) on both flavours
   use Op::*;
   use Sz::*;
@@ -1288,6 +1341,20 @@ pub fn check_c18(tier: Tier) -> i32 {
     let mut c = Cfg::new(fl, Backend::File, true, cap + 96);
     c.file_offset = 4096;
     cells.push(c);
+    // a reserved prefix holding the caller's bytes, on one backend per free-list kind (all three together)
+    let (b, u) = match fl {
+      Fl::Optimistic => (Backend::Anon, true),
+      Fl::Pessimistic => (Backend::Vec, false),
+      Fl::None => (Backend::File, true),
+    };
+    let mut c = Cfg::new(fl, b, u, if u { cap + 96 + 8 } else { cap + 65 + 5 });
+    c.reserved = 5;
+    cells.push(c);
+    if fl == Fl::Optimistic {
+      let mut c = Cfg::new(fl, Backend::Anon, false, cap + 65 + 5);
+      c.reserved = 5;
+      cells.push(c);
+    }
   }
   par_for_each(&cells, |_, c| c18_cell(&run, c, &alphabet, if thorough { 3 } else { 2 }, &ns));
   // read-only arenas refuse
